@@ -75,7 +75,7 @@ func init() {
 			return bs
 		},
 		Run: func(w *fw.W, b fw.Batch) {
-			progs, reqs := 300, 24
+			progs, reqs := 900, 24
 			if w.Tier == fw.Thorough {
 				progs, reqs = 3000, 48
 			}
